@@ -181,6 +181,28 @@ func c12Alphabet(tier string) []vEvent {
 	return out
 }
 
+// c12DeepAlphabet: a chain of directories deeper than the validator's initial
+// stack capacity, with siblings at the deep levels.
+func c12DeepAlphabet(tier string) []vEvent {
+	depth := 12
+	if tier == "thorough" {
+		depth = 24
+	}
+	var out []vEvent
+	p := ""
+	for i := 1; i <= depth; i++ {
+		if p != "" {
+			p += "/"
+		}
+		p += "d"
+		out = append(out, vEvent{Kind: 0, Path: p})
+		if i >= 7 {
+			out = append(out, vEvent{Kind: 0, Path: p + "x"}, vEvent{Kind: 1, Path: p + "x"}, vEvent{Kind: 1, Path: p + "a"}, vEvent{Kind: 2, Path: p + "m"})
+		}
+	}
+	return out
+}
+
 func runC12(r *evid.Run) {
 	r.Technique = "explicit-state BFS of the product (real Validator state dump x specification state) over a finite event alphabet, to closure; exhaustive enumeration of all path pairs/triples for the order axioms"
 	r.Rule = "states = distinct (real validator private-state dump, spec state) pairs reached by BFS over all event histories; non-trivial = accepted histories of length>=2 plus every string pair with differing strings"
@@ -273,7 +295,7 @@ func runC12(r *evid.Run) {
 	r.Sample(map[string]any{"order_pair": []string{"a-b", "a/b"}, "real": fsutil.ComparePath("a-b", "a/b"), "spec": fsmodel.ComparePaths("a-b", "a/b")})
 
 	// ---- part 2: validator, product BFS to closure ----
-	events := c12Alphabet(r.Tier)
+	for pass, events := range [][]vEvent{c12Alphabet(r.Tier), c12DeepAlphabet(r.Tier)} {
 	type item struct{ hist []vEvent }
 	seen := map[string]bool{}
 	frontier := []item{{}}
@@ -337,11 +359,12 @@ func runC12(r *evid.Run) {
 		}
 	}
 	closed = len(frontier) == 0
-	r.Set("validator_bfs_depth", depth)
-	r.Set("validator_closure_reached", closed)
-	r.Set("validator_alphabet", len(events))
+	r.Set(fmt.Sprintf("validator_bfs_depth_alphabet%d", pass), depth)
+	r.Set(fmt.Sprintf("validator_closure_reached_alphabet%d", pass), closed)
+	r.Set(fmt.Sprintf("validator_alphabet%d", pass), len(events))
 	if !closed {
 		r.Exhaustive = false
+	}
 	}
 }
 
